@@ -378,7 +378,11 @@ func (g *sgen) topSpec() *gspec {
 func (g *sgen) violatingSpec() (*gspec, string) {
 	str := tyJSON(cty.String)
 	a := func(n string) *gspec { return &gspec{Kind: "attr", Name: n, Type: str} }
-	switch g.r.Intn(8) {
+	switch g.r.Intn(10) {
+	case 8:
+		return &gspec{Kind: "refine", Func: "notnull", Kids: []*gspec{a("a1")}}, "refine-unguarded"
+	case 9:
+		return &gspec{Kind: "blocklist", Name: "b1", Min: 1, Kids: []*gspec{{Kind: "object", Keys: []string{"l"}, Kids: []*gspec{{Kind: "blocklabel", Index: 1, Name: "n"}}}}}, "label-index-gap"
 	case 0:
 		return &gspec{Kind: "object", Keys: []string{"l"}, Kids: []*gspec{{Kind: "blocklabel", Index: 0, Name: "n"}}}, "label-at-top-level"
 	case 1:
